@@ -36,6 +36,8 @@ def bfs(ctx, impl, fn, cfg, depth, label='', start=None, seen=None,
             trans += r['trans']
             for v in r['viol']:
                 v.setdefault('impl', impl)
+                if pool_kw.get('extra_env'):
+                    v.setdefault('env', pool_kw['extra_env'])
             ctx.violations(r['viol'])
             ctx.merge_counts(r.get('stats', {}))
             for key, h in r['new']:
